@@ -47,10 +47,10 @@ CHECK_DEADLOCK FALSE
 }
 
 P = {
-    "ipfix": dict(pkg="ipfix", drivers=["ipfix/decode_verif_test.go", "ipfix/infomodel_verif_test.go"],
+    "ipfix": dict(pkg="ipfix", drivers=["ipfix/decode_verif_test.go", "ipfix/infomodel_verif_test.go", "ipfix/peer_verif_test.go"],
                   jobs="TestVerifIPFIXJobs", variants="TestVerifIPFIXVariants", gen="IPFIXGenMC",
                   trace="IPFIXTrace", name="IPFIX"),
-    "v9": dict(pkg="netflow/v9", drivers=["netflow9/decode_verif_test.go"],
+    "v9": dict(pkg="netflow/v9", drivers=["netflow9/decode_verif_test.go", "netflow9/peer_verif_test.go"],
                jobs="TestVerifNF9Jobs", variants="TestVerifNF9Variants", gen="NetFlow9GenMC",
                trace="NetFlow9Trace", name="NetFlow v9"),
 }
